@@ -193,7 +193,7 @@ def check_case(case, ctx):
     if np.asarray(pep.G_value).shape != G_after.shape or float(np.max(np.abs(np.asarray(pep.G_value, dtype=float) - G_after))) > 1e-12 * gscale:
         ctx.fail("G_value-not-solver-gram", "PEP.G_value is not the Gram matrix found by the (last) solver call")
     err = float(np.max(np.abs(Pm.T @ Pm - oracles.psd_projection(G_after))))
-    if err > k * gscale:
+    if err > 1e-9 * gscale:  # a factorisation, not a solve: round-off tolerance (DESIGN §9, round 15)
         ctx.fail("gram-mismatch", "leaf points do not reproduce the PSD projection of the solver's Gram matrix (error %.3e)" % err)
     worst = 0.0
     for c in lc:
